@@ -197,7 +197,7 @@ def strict_scalars(ir):
 
 
 def gen_ir(rng, hostile):
-    ir = S.generate(rng, hostile_descriptions=hostile)
+    ir = S.generate(rng, hostile_descriptions=hostile, features={"variable_definition_location": True})
     # recursion shapes and implementer-only types
     r = rng.random()
     if r < 0.5:
